@@ -458,4 +458,326 @@ theorem step_next (s : State) (op : Op) : s.next ≤ (step s op).st.next := by
     · simp [fail]
     · exact Nat.le_refl _
 
+
+/-- the invariant of all API histories: `Inv` (C02), uuids on disk were drawn from the counter,
+an open handle sits on a coherent chain, a writable container implies patching is allowed,
+and a handle that allows patching but has no writable container ends in a committed one -/
+structure Good0 (s : State) : Prop where
+  inv : Inv s
+  pidsBelow : ∀ f ub p, getF s.disk f = some (.cont ub p) → ub.pid < s.next
+  coh : s.h.closed = false → Coherent s.disk s.h.files
+  rwAllow : hasWritable s.h = true → s.h.allow = true
+  lastCommitted : s.h.closed = false → s.h.allow = true → hasWritable s.h = false →
+    ∀ f ul, lastFile s.h.files = some (f, ul) → ul.hash.isSome = true
+
+theorem good0_of_failed {s : State} {r : Res} (hg : Good0 s) (hf : Failed s r) (hn : s.next ≤ r.st.next) :
+    Good0 r.st := by
+  refine ⟨inv_of_failed hg.inv hf, ?_, ?_, ?_, ?_⟩
+  · intro f ub p h; rw [hf.2.1] at h; exact Nat.lt_of_lt_of_le (hg.pidsBelow f ub p h) hn
+  · rw [hf.2.1, hf.2.2.1]; exact hg.coh
+  · rw [hf.2.2.1]; exact hg.rwAllow
+  · rw [hf.2.2.1]; exact hg.lastCommitted
+
+theorem good0_createRec (s : State) (c : Bool) (n : Name) (o : List Name) (hg : Good0 s) :
+    Good0 (createRec s c n false o).st := by
+  rcases createRec_notrunc s c n o with hf | ⟨_, _, hfresh, heq⟩
+  · exact good0_of_failed hg hf (createRec_next _ _ _ _ _)
+  · have hi := createRec_notrunc_inv s c n o hg.inv
+    rw [heq] at hi ⊢
+    refine ⟨hi, ?_, fun _ => coherent_fresh _ _ _, fun _ => rfl, ?_⟩
+    · intro f ub p h
+      simp only at h
+      by_cases hf : f = baseFile n
+      · subst hf; rw [getF_setF_eq] at h; cases h; simp [newBaseUB]
+      · rw [getF_setF_ne _ _ _ _ hf] at h
+        exact Nat.lt_of_lt_of_le (hg.pidsBelow f ub p h) (by simp)
+    · intro _ _ hw; simp [hasWritable, freshHandle] at hw
+
+theorem good0_createPatch (s : State) (hg : Good0 s) : Good0 (createPatch s).st := by
+  rcases createPatch_spec s with hf | ⟨f0, u0, rest, fl, ul, hfiles, hl, hcl, hal, hnw, hnotin, hfresh, heq⟩
+  · exact good0_of_failed hg hf (createPatch_next s)
+  · have hi := createPatch_inv s hg.inv
+    rw [heq] at hi ⊢
+    have hcoh := hg.coh hcl
+    have hs := hg.lastCommitted hcl hal hnw fl ul hl
+    refine ⟨hi, ?_, ?_, fun _ => hal, ?_⟩
+    · intro f ub p h
+      simp only at h
+      by_cases hf : f = patchFile (inferName f0) (ul.idx + 1)
+      · subst hf; rw [getF_setF_eq] at h; cases h; simp [newPatchUB]
+      · rw [getF_setF_ne _ _ _ _ hf] at h
+        exact Nat.lt_of_lt_of_le (hg.pidsBelow f ub p h) (by simp)
+    · intro _
+      apply coherent_append_patch hcoh hl hs hfresh
+      intro x hx
+      obtain ⟨p, hp⟩ := hcoh.onDisk x.1 x.2 hx
+      exact Nat.ne_of_lt (hg.pidsBelow _ _ _ hp)
+    · intro _ _ hw; simp [hasWritable] at hw
+
+theorem good0_write (s : State) (k : Nat) (hg : Good0 s) : Good0 (write s k).st := by
+  rcases write_spec s k with hf | ⟨f, u, hl, hw, hcl, ⟨ub, p, hg0, heq⟩ | ⟨_, heq⟩⟩
+  · exact good0_of_failed hg hf (by rw [write_next]; exact Nat.le_refl _)
+  · have hi := write_inv s k hg.inv
+    rw [heq] at hi ⊢
+    have hcoh := hg.coh hcl
+    obtain ⟨q, hq⟩ := hcoh.onDisk f u (lastFile_mem _ _ hl)
+    rw [hg0] at hq; cases hq
+    obtain ⟨f', ub', hl', ubd, pd, hgd, hnone⟩ := hg.inv.writable hw
+    rw [hl] at hl'; cases hl'
+    rw [hg0] at hgd; cases hgd
+    refine ⟨hi, ?_, fun _ => coherent_write hcoh hl hnone, hg.rwAllow, ?_⟩
+    · intro g ubg pg h
+      simp only at h
+      by_cases hf : g = f
+      · subst hf; rw [getF_setF_eq] at h; cases h; exact hg.pidsBelow _ _ _ hg0
+      · rw [getF_setF_ne _ _ _ _ hf] at h; exact hg.pidsBelow g ubg pg h
+    · intro _ _ hnw; rw [hw] at hnw; cases hnw
+  · rw [heq]; exact hg
+
+theorem good0_commitPlain (s : State) (hg : Good0 s) : Good0 (commitPlain s).st := by
+  rcases commitPlain_spec s with hf | ⟨f, ub, p, hl, hcl, hal, hw, hp, heq⟩
+  · exact good0_of_failed hg hf (by rw [commitPlain_next]; exact Nat.le_refl _)
+  · have hi := commitPlain_inv s hg.inv
+    rw [heq] at hi ⊢
+    have hcoh := hg.coh hcl
+    obtain ⟨q, hq⟩ := hcoh.onDisk f ub (lastFile_mem _ _ hl)
+    refine ⟨hi, ?_, ?_, ?_, ?_⟩
+    · intro g ubg pg h
+      simp only at h
+      by_cases hf : g = f
+      · subst hf; rw [getF_setF_eq] at h; cases h; exact hg.pidsBelow _ ub _ hq
+      · rw [getF_setF_ne _ _ _ _ hf] at h; exact hg.pidsBelow g ubg pg h
+    · intro _
+      exact coherent_commit_last hcoh hl hp ⟨rfl, rfl, rfl, rfl⟩ rfl
+    · intro h; simp [hasWritable] at h
+    · intro _ _ _ g ug hlg
+      simp only at hlg
+      rw [lastFile_setLastUB _ _ _ _ hl] at hlg
+      cases hlg; rfl
+
+theorem good0_commitMF (s : State) (hg : Good0 s) : Good0 (commitMF s).st := by
+  rcases commitMF_spec s with hf | ⟨f, ub, p, hl, hcl, hal, hw, hp, _, hd, hh, hnx, _, _⟩
+  · exact good0_of_failed hg hf (commitMF_next s)
+  · have hi := commitMF_inv s hg.inv
+    have hcoh := hg.coh hcl
+    obtain ⟨q, hq⟩ := hcoh.onDisk f ub (lastFile_mem _ _ hl)
+    have hc1 := coherent_commit_last (ul' := mfCommitUB ub s.next p) hcoh hl hp ⟨rfl, rfl, rfl, rfl⟩ rfl
+    refine ⟨hi, ?_, ?_, ?_, ?_⟩
+    · intro g ubg pg h
+      rw [hd] at h
+      rw [hnx]
+      by_cases h2 : g = manifestFile f
+      · subst h2; rw [getF_setF_eq] at h; cases h
+      · rw [getF_setF_ne _ _ _ _ h2] at h
+        by_cases hf : g = f
+        · subst hf; rw [getF_setF_eq] at h; cases h
+          exact Nat.lt_of_lt_of_le (hg.pidsBelow _ ub _ hq) (by simp)
+        · rw [getF_setF_ne _ _ _ _ hf] at h
+          exact Nat.lt_of_lt_of_le (hg.pidsBelow g ubg pg h) (by simp)
+    · intro _
+      rw [hd, hh]
+      apply coherent_congr _ hc1
+      intro x hx
+      apply getF_setF_ne
+      intro heq
+      obtain ⟨q', hq'⟩ := hc1.onDisk x.1 x.2 hx
+      by_cases hx1 : x.1 = f
+      · rw [hx1] at heq
+        have := congrArg List.length heq
+        simp [manifestFile, mfExt] at this
+      · rw [getF_setF_ne _ _ _ _ hx1] at hq'
+        have := hg.inv.diskOk _ _ _ hq'
+        rw [heq, manifestFile_last] at this; cases this
+    · intro h; rw [hh] at h; simp [hasWritable] at h
+    · intro _ _ _ g ug hlg
+      rw [hh] at hlg
+      simp only at hlg
+      rw [lastFile_setLastUB _ _ _ _ hl] at hlg
+      cases hlg; rfl
+
+theorem good0_commitPatch (s : State) (hg : Good0 s) : Good0 (commitPatch s).st := by
+  unfold commitPatch; split
+  · exact good0_commitMF s hg
+  · exact good0_commitPlain s hg
+
+theorem good0_discardPatch (s : State) (hg : Good0 s) : Good0 (discardPatch s).st := by
+  rcases discardPatch_spec s with hf | ⟨f, ub, hl, hcl, hal, hw, hlen, heq⟩
+  · exact good0_of_failed hg hf (by rw [discardPatch_next]; exact Nat.le_refl _)
+  · have hi := discardPatch_inv s hg.inv
+    rw [heq] at hi ⊢
+    have hcoh := hg.coh hcl
+    obtain ⟨hc', hlast⟩ := coherent_discard hcoh hl hlen
+    refine ⟨hi, ?_, fun _ => hc', ?_, ?_⟩
+    · intro g ubg pg h
+      simp only at h
+      by_cases hf : g = f
+      · subst hf; rw [getF_eraseF_eq] at h; cases h
+      · rw [getF_eraseF_ne _ _ _ hf] at h; exact hg.pidsBelow g ubg pg h
+    · intro h; simp [hasWritable] at h
+    · intro _ _ _ g ug hlg
+      exact hlast g ug hlg
+
+theorem good0_close (s : State) (c : Bool) (hg : Good0 s) : Good0 (close s c).st := by
+  have hclosed : ∀ (s' : State), Good0 s' → Good0 { s' with h := closedHandle s'.h } := by
+    intro s' hg'
+    refine ⟨⟨hg'.inv.diskOk, by intro h; simp [hasWritable_closedHandle] at h⟩, hg'.pidsBelow, ?_, ?_, ?_⟩
+    · intro h; simp [closedHandle] at h
+    · intro h; simp [hasWritable_closedHandle] at h
+    · intro h; simp [closedHandle] at h
+  rcases close_spec s c with ⟨_, heq⟩ | ⟨_, _, _, _, heq⟩ | ⟨_, _, _, _, heq⟩ | ⟨_, _, heq⟩
+  · rw [heq]; exact hg
+  · rw [heq]; exact good0_commitPatch s hg
+  · rw [heq]; exact hclosed _ (good0_commitPatch s hg)
+  · rw [heq]; exact hclosed _ hg
+
+
+theorem good0_openExisting (s : State) (c : Bool) (paths : List Name) (m : Mode) (hg : Good0 s) :
+    Good0 (openExisting s c paths m).st := by
+  rcases openExisting_spec s c paths m with hf | ⟨files, b, man, hopen, _, ⟨hnc, heq⟩ | ⟨hw, _, heq⟩⟩
+  · exact good0_of_failed hg hf (openExisting_next _ _ _ _)
+  · have hi := openExisting_inv s c paths m hg.inv
+    rw [heq] at hi ⊢
+    obtain ⟨_, _, fl, ul, hl, hb⟩ := openFiles_ok hopen
+    refine ⟨hi, hg.pidsBelow, fun _ => openFiles_sound hopen, ?_, ?_⟩
+    · intro hw
+      simp only [hasWritable, openedHandle, Bool.and_eq_true] at hw
+      have : b = true := hw.2
+      rw [this] at hb
+      have := hb.symm
+      simp only [Bool.and_eq_true] at this
+      simpa [openedHandle] using this.1
+    · intro _ hal hnw
+      simp only [openedHandle] at hal
+      simp only [hal, Bool.true_and, Bool.not_eq_eq_eq_not, Bool.not_false] at hnc
+      rw [hnc] at hnw; cases hnw
+  · rw [heq]
+    apply good0_createPatch
+    obtain ⟨_, _, fl, ul, hl, hb⟩ := openFiles_ok hopen
+    simp only [Bool.and_eq_true, Bool.not_eq_eq_eq_not, Bool.not_true] at hw
+    have hnw : hasWritable (openedHandle files b c m man) = false := hw.2
+    have hb' : b = false := by
+      have hne : files.isEmpty = false := by
+        cases files with
+        | nil => simp [lastFile] at hl
+        | cons x r => rfl
+      simpa [hasWritable, openedHandle, hne] using hnw
+    refine ⟨⟨hg.inv.diskOk, (by intro h; rw [hnw] at h; cases h)⟩, hg.pidsBelow,
+      fun _ => openFiles_sound hopen, (by intro h; rw [hnw] at h; cases h), ?_⟩
+    intro _ _ _ f u hlf
+    simp only [openedHandle] at hlf
+    rw [hl] at hlf; cases hlf
+    rw [hb', hw.1] at hb
+    have := hb.symm
+    simp only [Bool.true_and] at this
+    cases hh : ul.hash with
+    | none => rw [hh] at this; simp at this
+    | some v => rfl
+
+theorem good0_openRec (s : State) (c : Bool) (t : Target) (m : Mode) (hsafe : (Op.openRec c t m).safe = true)
+    (hg : Good0 s) : Good0 (openRec s c t m).st := by
+  have hfail : ∀ e k, Good0 (fail { s with next := k } e).st → True := fun _ _ _ => trivial
+  unfold openRec
+  split
+  · exact hg
+  · cases t with
+    | list fs =>
+      simp only
+      split
+      · exact hg
+      · split
+        · exact hg
+        · exact good0_openExisting _ _ _ _ hg
+    | name n =>
+      cases m with
+      | w => simp [Op.safe] at hsafe
+      | wm => exact good0_createRec _ _ _ _ hg
+      | x => exact good0_createRec _ _ _ _ hg
+      | r =>
+        simp only
+        split
+        · exact hg
+        · exact hg
+        · exact good0_openExisting _ _ _ _ hg
+      | rp =>
+        simp only
+        split
+        · exact hg
+        · exact hg
+        · exact good0_openExisting _ _ _ _ hg
+      | a =>
+        simp only
+        split
+        · exact hg
+        · exact good0_createRec _ _ _ _ hg
+        · exact good0_openExisting _ _ _ _ hg
+
+theorem good0_mergeFiles (s : State) (t : Name) (hg : Good0 s) : Good0 (mergeFiles s t).st := by
+  rcases mergeFiles_spec s t with hf | ⟨hcl, hnw, _, hfresh, hnotin, hh, _, _, hfr, ⟨ub, p, hub, hpid⟩, hnx, hside, _⟩
+  · exact good0_of_failed hg hf (mergeFiles_next s t)
+  · have hi := mergeFiles_inv s t hg.inv
+    have hcoh := hg.coh hcl
+    refine ⟨hi, ?_, ?_, ?_, ?_⟩
+    · intro g ubg pg h
+      by_cases h1 : g = baseFile t
+      · subst h1
+        rw [hub] at h; cases h
+        rcases hpid with hp | hp
+        · omega
+        · obtain ⟨f0, u0, rest, hfiles, _⟩ := hcoh.checks
+          cases hl : lastFile s.h.files with
+          | none => rw [hfiles] at hl; exact absurd ((lastFile_eq_none _).mp hl) (by simp)
+          | some y =>
+            obtain ⟨fl, ul⟩ := y
+            obtain ⟨q, hq⟩ := hcoh.onDisk fl ul (lastFile_mem _ _ hl)
+            have := hg.pidsBelow _ _ _ hq
+            rw [hp fl ul hl]; omega
+      · by_cases h2 : g = manifestFile (baseFile t)
+        · subst h2
+          rcases hside with hs | ⟨_, a, b, hs⟩
+          · rw [hs] at h
+            have := hg.pidsBelow _ _ _ h; omega
+          · rw [hs] at h; cases h
+        · rw [hfr g h1 h2] at h
+          have := hg.pidsBelow _ _ _ h; omega
+    · intro _
+      rw [hh]
+      apply coherent_congr _ hcoh
+      intro x hx
+      obtain ⟨q, hq⟩ := hcoh.onDisk x.1 x.2 hx
+      apply hfr
+      · intro he
+        rw [he, hfresh] at hq; cases hq
+      · intro he
+        have := hg.inv.diskOk _ _ _ hq
+        rw [he, manifestFile_last] at this; cases this
+    · rw [hh]; exact hg.rwAllow
+    · rw [hh]; exact hg.lastCommitted
+
+/-- every safe call preserves the invariant -/
+theorem good0_step (s : State) (op : Op) (hsafe : op.safe = true) (hg : Good0 s) : Good0 (step s op).st := by
+  cases op with
+  | openRec c t m => exact good0_openRec s c t m hsafe hg
+  | write k => exact good0_write s k hg
+  | read => simp only [step, (read_state s).1]; exact hg
+  | createPatch => exact good0_createPatch s hg
+  | commitPatch => exact good0_commitPatch s hg
+  | discardPatch => exact good0_discardPatch s hg
+  | close c => exact good0_close s c hg
+  | merge t => exact good0_mergeFiles s t hg
+  | deleteFiles n => simp [Op.safe] at hsafe
+
+theorem good0_run (ops : List Op) (s : State) (hg : Good0 s) (hsafe : ∀ o ∈ ops, o.safe = true) :
+    Good0 (run s ops) := by
+  induction ops generalizing s with
+  | nil => exact hg
+  | cons o r ih =>
+    simp only [run]
+    exact ih _ (good0_step s o (hsafe o (by simp)) hg) (fun o' ho' => hsafe o' (by simp [ho']))
+
+/-- the empty directory with no handle -/
+theorem good0_init : Good0 {} :=
+  ⟨⟨(by intro f ub p h; simp [getF] at h), (by intro h; simp [hasWritable] at h)⟩,
+    (by intro f ub p h; simp [getF] at h), (by intro h; cases h), (by intro h; simp [hasWritable] at h),
+    (by intro h; cases h)⟩
+
 end MetadorModel.Record
